@@ -74,6 +74,26 @@ def _callers_of(ctx, cfg):
     return ctx.memo(("callers", cfg), build)
 
 
+CMP_NAMES = ("cmp", "partial_cmp", "eq", "ne", "lt", "le", "gt", "ge")
+
+
+def _cmp_or_its_new_helpers(ctx):
+    """selector: the comparison impls of the vector types, and helpers introduced after the review that they (transitively)
+    call - the comparison glue div_rem and the ordering properties rely on"""
+    def is_cmp(b):
+        return b is not None and b.name in CMP_NAMES and b.self_family in ("Bvf", "Bvd", "Bv")
+
+    def sel(b, k, depth=0):
+        if b is None:
+            return False
+        if is_cmp(b):
+            return True
+        if depth > 2 or not storage.is_new_private_helper(b):
+            return False
+        return any(sel(c, k, depth + 1) for c in _callers_of(ctx, "dbg").get(b.path, []) if c.kind != "Closure")
+    return sel
+
+
 def _selected_through_callers(ctx, cfg, w, select, depth=0):
     """a writer that is a new helper belongs to a property when one of its (transitive) callers does"""
     if not storage.is_new_private_helper(w.body) or depth > 2:
@@ -464,7 +484,13 @@ def err_predicates(crate):
         if not sites:
             if exp and b.self_family in ("Bvf",) or (exp and b.self_ty in f2.WORD_TYPES and "Bvf" in " ".join(b.trait_args)):
                 if not any(fn and fn["name"] in ("try_from", "try_into", "from_bytes") for bb, t, fn in b.iter_calls()):
-                    out.append((b, "%s|capacity predicate" % b.key, "violation", "never returns NotEnoughCapacity"))
+                    helpers = sorted({crate.new_helper(fn).name for bb, t, fn in b.iter_calls() if crate.new_helper(fn) is not None})
+                    if helpers:
+                        # the check moved into helper(s) introduced after the review, which are judged as bodies of their own
+                        out.append((b, "%s|capacity predicate" % b.key, "undecided",
+                                    "the NotEnoughCapacity exit is not in this body; it calls the new helper(s) %s" % ", ".join(helpers)))
+                    else:
+                        out.append((b, "%s|capacity predicate" % b.key, "violation", "never returns NotEnoughCapacity"))
             continue
         key = "%s|capacity predicate" % b.key
         if len(set(sites)) != 1:
@@ -850,6 +876,9 @@ def check_c02(ctx, rep, tier):
     run_generic(ctx, rep, "UNWRAP", unwrap.sites, configs=("dbg",),
                 select=lambda b, k: b.name == "div_rem" or (b.trait in ("Div", "Rem", "DivAssign", "RemAssign")))
     run_generic(ctx, rep, "DECR", arith.decr_sites, configs=("dbg",), select=lambda b, k: b.name == "div_rem")
+    # the shift-subtract loop decides by `rem >= divisor`: the comparison glue (and helpers added to it) must not panic or
+    # wrap on a length difference
+    run_generic(ctx, rep, "DECR", arith.decr_sites, configs=("dbg",), select=_cmp_or_its_new_helpers(ctx), memo_key="decr_sites")
     n = run_generic(ctx, rep, "LEN", div_rem_shape)
     rep.floor("div_rem result shapes", n, 3)
     n = run_generic(ctx, rep, "SIB", f2.div_rem_siblings)
@@ -919,6 +948,8 @@ def check_c07(ctx, rep, tier):
     n = run_generic(ctx, rep, "ORDER", f2.trait_defaults,
                     select=lambda b, k: any(x in k for x in ("truncate", "sign_extend", "insert", "split_off", "pop", "Extend", "FromIterator")))
     rep.floor("edit compositions", n, 16)
+    from . import lenflow
+    run_generic(ctx, rep, "LENFLOW", lenflow.split_lengths, select=lambda b, k: b is not None and b.name == "split_off")
     run_mask(ctx, rep, select=lambda w: w.body.name in EDIT_FNS)
     run_shrink(ctx, rep, select=lambda b: b.name in EDIT_FNS)
     run_dbgfx(ctx, rep, lambda b, k: b.name in EDIT_FNS + ("reserve", "set_int"))
@@ -929,7 +960,10 @@ def check_c08(ctx, rep, tier):
     n = run_generic(ctx, rep, "LEN", f2.length_effects, select=lambda b, k: b.name == "copy_range")
     rep.floor("copy_range length effects", n, 2)
     counts = run_mask(ctx, rep, select=lambda w: w.body.name == "copy_range")
-    rep.floor("copy_range truncations (K1)", counts.get("K1", 0), 2)
+    rep.floor("copy_range storage writers classified", sum(counts.values()), 2)
+    from . import lenflow
+    n = run_generic(ctx, rep, "LENFLOW", lenflow.split_lengths)
+    rep.floor("split_off / split length interpretation", n, 2)
     # split_off / split / truncate leave the low part in place through resize(index): the shrink must clear what it drops,
     # or the low part no longer equals the vector made of the source's low bits
     run_shrink(ctx, rep, select=lambda b: b.name in ("resize", "truncate", "split_off"))
@@ -953,6 +987,7 @@ def check_c09(ctx, rep, tier):
     run_generic(ctx, rep, "ZIPREF", f2.zip_by_ref, select=lambda b, k: b is not None and b.name in ("eq", "ne", "cmp", "partial_cmp", "lt", "le", "gt", "ge"))
     # a comparison that inspects "the rest of the longer operand" must read that operand, not the shorter one
     run_generic(ctx, rep, "VACUOUS", f2.vacuous_reads)
+    run_generic(ctx, rep, "DECR", arith.decr_sites, configs=("dbg",), select=_cmp_or_its_new_helpers(ctx), memo_key="decr_sites")
     n = run_generic(ctx, rep, "KERNEL", cmp.kernel_shape)
     # comparisons rewritten with iterator adaptors are reported as undecided by REV: they still count as located kernels
     n = len({i["key"].split("|")[0] for i in rep.instances if (i["rule"] == "KERNEL" and not i["key"].startswith("SIB"))
@@ -1115,7 +1150,9 @@ def check_c12(ctx, rep, tier):
     n = run_generic(ctx, rep, "GUARD-PRED", err_predicates, select=_is_impl_conv)
     rep.floor("capacity predicates of conversions", n, 2)     # a conversion may delegate to a sibling that owns the predicate
     counts = run_mask(ctx, rep, select=lambda w: _is_impl_conv(w.body, ""))
-    rep.floor("masked-source copies (K6)", counts.get("K6", 0), 4)
+    # K6 is one of several correct ways to write a conversion (a whole-slice copy with a masked top word is another): the
+    # anchor is that the conversions' storage writers are found and classified at all
+    rep.floor("storage writers among the conversions (4 of them masked-source copies, K6)", sum(counts.values()), 5, need=3)
     run_generic(ctx, rep, "GUARD-CAP", guard.capacity_guards, select=_is_impl_conv)
     run_generic(ctx, rep, "UNWRAP", unwrap.sites, configs=("dbg",), select=_is_impl_conv)
     n = run_generic(ctx, rep, "SAFE", f2.safe_facts, select=lambda b, k: "layout" in k or "unsafe" in k or "get_int" in k or "set_int" in k)
@@ -1410,7 +1447,8 @@ _ADDENDA = {
     "C04": _DBG,
     "C05": "OVF-SHIFT: every overflow-checked + or * on the saturated shift amount is one of three bounded forms (reasoned table). " + _DBG,
     "C07": _DBG,
-    "C08": "SHRINK/MASK on resize: split_off/split/truncate leave the low part in place through resize(index), which must clear what it drops. " + _DBG,
+    "C08": "LENFLOW halves: on every path of split_off / split the returned high part has len - index bits and self keeps index bits (symbolic "
+           "lengths through copy_range / resize / truncate / mem::replace, proved linearly or refuted by a small model). SHRINK/MASK on resize: split_off/split/truncate leave the low part in place through resize(index), which must clear what it drops. " + _DBG,
     "C09": "ZIPREF: the left operand of a zip over by_ref() iterators is not consumed again (zip drops one of its items). Comparing raw word slices "
            "of different lengths is lexicographic, not numeric (violation); equal explicit lengths or iterator adaptors are undecided. VACUOUS: a word "
            "test over the index range [a.int_len(), b.int_len()) that reads a (always its zero extension) examines the wrong operand.",
